@@ -102,6 +102,8 @@ class C13:
         warm = E.gen_rows(env, cfg, b, st.torch_seed("warm")) if rc.random() < 0.5 else []
         scorer = {"kind": "am", "seed": rc.randrange(1 << 30)} if use_am else \
             {"kind": "scripted", "mode": rc.choice(["gaussian", "gaussian", "ties"]), "seed": rc.randrange(1 << 30)}
+        if use_am and name in ("tsp", "cvrp") and rc.random() < 0.5:
+            scorer["kind"] = "nar"  # real non-autoregressive decoder (heatmap rows) behind a stub encoder
         return {"cfg": cfg, "instances": [E.enc_row(r) for r in rows], "scorer": scorer,
                 "warm": [E.enc_row(r) for r in warm],
                 "width_frac": rc.random(), "width_max": bool(rc.random() < 0.25),
@@ -151,6 +153,13 @@ class C13:
             with run.guard(name, "construct AttentionModelPolicy", promise=False):
                 policy = tiny_am(name, sc["seed"])
             scope = f"am/{name}"
+            exact = False
+        elif sc["kind"] == "nar":
+            from ..policies import make_nar_policy
+
+            with run.guard(name, "construct NonAutoregressivePolicy", promise=False):
+                policy = make_nar_policy(name, sc["seed"]).eval()
+            scope = f"nar/{name}"
             exact = False
         else:
             policy = make_scripted_policy(name, sc["mode"], sc["seed"], key="state")
